@@ -344,6 +344,33 @@ theorem step_total (o : Ops) (s : MSt) (e : MEv) (hm : Modelled s.c e) : ∃ s',
     | none => rw [hc] at hm; cases hm
   | eref r => exact ⟨_, rfl⟩
 
+/-! ### …nor on the hand-modelled element handlers of stages 4, 5 and 7
+
+link, guid / id, category (dc:subject, keywords), enclosure, author (dc:creator, managingEditor, itunes:author) with name / email / uri children, contributor, webMaster /
+dc:publisher, itunes:owner, cloud, generator: every start tag and every end tag of these — in ANY state outside a text construct, on any element stack, with any attributes —
+yields a state.  (The branches where the real code runs into an AttributeError that `unknown_starttag` swallows — `links` / `authors` / `contributors` replaced by a same-named element —
+are modelled as what then happens, not as failures; see `startLink`, `startAuthorKinds`.) -/
+
+theorem lg_start_total (o : Ops) (s : MSt) (tag : Str) (attrs : List (Str × Str)) (kind : Str) (hnc : s.c.incontent = false)
+    (hx : extKind (handlerName (startPre o s.c tag attrs).1 tag) = none)
+    (hl : lgKind (handlerName (startPre o s.c tag attrs).1 tag) = some kind) : ∃ s', mstep o s (.start tag attrs) = .ok s' := by
+  have hok := startLG_isOk o (startPre o s.c tag attrs).1 kind (startPre o s.c tag attrs).2
+  rw [lgKind_ok _ kind hl] at hok
+  simp only [mstep, startTag, hnc, Bool.false_eq_true, ↓reduceIte, startTag0, hx, hl]
+  cases hr : startLG o (startPre o s.c tag attrs).1 kind (startPre o s.c tag attrs).2 with
+  | error w => rw [hr] at hok; simp [Except.isOk, Except.toBool] at hok
+  | ok r => exact ⟨_, rfl⟩
+
+theorem lg_end_total (o : Ops) (s : MSt) (tag : Str) (kind : Str) (hnc : s.c.incontent = false)
+    (hl : lgKind (handlerName s.c tag) = some kind) : ∃ s', mstep o s (.stop tag) = .ok s' := by
+  obtain ⟨_, _, hce, hex, _, n2, n3, n4, n5⟩ := lgKind_facts _ kind hl
+  have hok := endLG_isOk o s kind
+  rw [lgKind_ok _ kind hl] at hok
+  simp only [mstep, endTag, hnc, Bool.false_eq_true, ↓reduceIte, hce, hex, Option.isSome_none, Bool.or_self, endTag0, n2, n3, n4, n5, hl]
+  cases hr : endLG o s kind with
+  | unmodelled w => rw [hr] at hok; cases hok
+  | ok s' => exact ⟨_, rfl⟩
+
 /-! ### an open text construct always has content parameters -/
 
 def CpInv (c : Core) : Prop := c.incontent = true → c.cp.isSome = true
